@@ -236,6 +236,7 @@ structure Forest where
   roots : List Tree
   nextId : Nat
   aliased : Bool := false       -- set when a step had to put one node object in two places
+  pool : List Tree := []        -- node objects moved during the current call (still addressable)
   deriving Repr, Inhabited
 
 namespace Forest
@@ -286,13 +287,19 @@ with the attribute dict and is always true (`holderObj`). -/
 def relocateRef (cfg : Cfg) (f : Forest) (pending : Option Nat) (par : Option Nat) (holderObj : Bool) (p : List Key) (id : Nat) :
     Forest × Tree :=
   match f.find? id with
-  | none => (f, .leaf .none)
+  | none =>
+    -- a node inside an object that was moved earlier in this call: it has a parent, so it is copied
+    match f.pool.findSome? (Tree.find? id) with
+    | some t =>
+      let c := t.clone cfg false f.nextId par p
+      ({ f with nextId := c.2 }, c.1)
+    | none => (f, .leaf .none)
   | some (.leaf a) => (f, .leaf a)
   | some (.node m its) =>
     if m.parent.isNone || (!holderObj && m.parent == par && m.path == p) then
       let t := ((Tree.node m its).setPath p).setParent par
-      if f.isRoot id then (f.removeRoot id, t)
-      else if pending == some id then (f, t)     -- the value being replaced: it leaves its slot in this very call
+      if f.isRoot id then ({ f.removeRoot id with pool := f.pool ++ [.node m its] }, t)
+      else if pending == some id then ({ f with pool := f.pool ++ [.node m its] }, t)     -- the value being replaced: it leaves its slot in this very call
       else ({ f with aliased := true }, t)
     else
       let c := (Tree.node m its).clone cfg false f.nextId par p
